@@ -60,6 +60,12 @@ func Harness_C08_run() {
 	if nondetBool("bad-before") {
 		ch.in <- verifBadRecord(nondetChoice("badkind", 3))
 	}
+	// a batch whose (gated) notification is followed by another request
+	mixed := gateNote && nnotes == 0 && nondetBool("mixed-batch")
+	if mixed {
+		ch.in <- tokArray([]json.RawMessage{verifReq("", "note"), verifReq("5", "again")})
+		nnotes = 1
+	}
 	quiesce()
 
 	// the stop
